@@ -112,9 +112,14 @@ C13_Req(c) ==
     [] c.clause \in {"root", "vieta"} -> Dec(10, "rounding")
 
 (* ================================ C23 Spectral ================================ *)
-C23_Cells == {[clause |-> cl, impl |-> im, norm |-> s] :
+(* shape: how the matrix is drawn.  generic = V diag(lambda) V^-1 with random V; the others  *)
+(* are the structured matrices the kernels actually produce or a shortcut could single out: *)
+(* all diagonal entries equal, upper triangular, real entries, one index decoupled (its row *)
+(* and column empty off the diagonal); all diagonalisable with separated eigenvalues.        *)
+C23_Shapes == {"generic", "eqdiag", "triangular", "real", "decoupled"}
+C23_Cells == {[clause |-> cl, impl |-> im, norm |-> s, shape |-> sh] :
                 cl \in {"proj", "complete", "recon", "exp", "expm"},
-                im \in {"2D", "gen2", "gen4"}, s \in {1, 10, 50}}
+                im \in {"2D", "gen2", "gen4"}, s \in {1, 10, 50}, sh \in C23_Shapes}
 C23_Req(c) == IF c.clause = "expm" THEN Dec(9, "reference-exponential") ELSE Dec(11, "rounding")
 
 (* ========================= C10 Identity and Compose =========================== *)
